@@ -747,6 +747,27 @@ func (r *RockDB) DeleteTableRange(dryrun bool, table string, start []byte, end [
 			r.DelTableKeyCount([]byte(table), wb)
 		}
 	}
+	if start == nil && end == nil {
+		// the whole table: bitmap and json keys have no [start, end) form of the real key (it is
+		// memcomparable-encoded), but the table as a whole is the range of its table prefix
+		rgs := make([]engine.CRange, 0, 3)
+		for _, dt := range []byte{BitmapType, JSONType} {
+			rgs = append(rgs, engine.CRange{
+				Start: encodeDataTableStart(dt, []byte(table)),
+				Limit: encodeDataTableEnd(dt, []byte(table)),
+			})
+		}
+		minMetaKey, maxMetaKey, err := getTableMetaRange(BitmapMetaType, []byte(table), nil, nil)
+		if err == nil {
+			rgs = append(rgs, engine.CRange{Start: minMetaKey, Limit: maxMetaKey})
+		}
+		dbLog.Infof("delete bitmap and json ranges of table %v: %v", table, rgs)
+		if !dryrun {
+			for _, rg := range rgs {
+				wb.DeleteRange(rg.Start, rg.Limit)
+			}
+		}
+	}
 	if dryrun {
 		return nil
 	}
